@@ -3,7 +3,7 @@
 #  patch applies to a pristine checkout, library builds, the 26 tests pass with it, demo fails with it and passes without it.
 # Writes /verif/seeded/<name>/{patch.diff,demo*,notes.md,RUN.txt,meta.json}; removes nothing (caller removes the worktree).
 id=$1; name=${2:-$id}
-WT=/tmp/seed/wt_$id; OUT=/tmp/seed/out_$id; DST=/verif/seeded/$name
+WT=/tmp/seed/${SEED_WT:-wt_}$id; OUT=/tmp/seed/${SEED_OUT:-out_}$id; DST=/verif/seeded/$name
 mkdir -p $DST
 cd $WT || exit 2
 git checkout -q -- . 2>/dev/null
@@ -22,10 +22,10 @@ cp $OUT/patch.diff $OUT/notes.md $OUT/RUN.txt $DST/ 2>/dev/null
 cp $OUT/demo*.c $DST/ 2>/dev/null
 echo "seed $id: build_warnings=$warn ctest_rc=$trc [$tests] demo_with_patch_rc=$with_rc demo_without_patch_rc=$without_rc"
 python3 - "$id" "$name" "$warn" "$trc" "$tests" "$with_rc" "$without_rc" <<'PY'
-import json, sys
+import json, sys, os
 id, name, warn, trc, tests, w, wo = sys.argv[1:8]
 meta = dict(property=id, name=name,
-            needs=open(f'/tmp/seed/out_{id}/notes.md').read()[:1500],
+            needs=open(os.environ.get("SEED_NOTES", f"/tmp/seed/out_{id}/notes.md")).read()[:1500],
             confirmed=dict(applies_to='8b87c87 (pinned commit) and current /repo HEAD', build_warnings=int(warn), ctest_rc=int(trc), ctest_summary=tests,
                            demo_with_patch_rc=int(w), demo_without_patch_rc=int(wo),
                            how='tools/confirm_seed.sh: apply patch in scratch worktree, cmake build, ctest -j8, build+run demo; revert, rebuild, run demo again'),
